@@ -46,6 +46,7 @@ type Cmd struct {
 	Sorted bool                       `json:"sorted"`
 	Fields []string                   `json:"fields"`
 	Pause  int                        `json:"pause"`
+	Hold   bool                       `json:"hold"`
 	Set    []SetQuery                 `json:"set"`
 	Conc   bool                       `json:"concurrent"`
 	SetID  string                     `json:"setId"`
@@ -526,6 +527,9 @@ func (r *runner) exec(c *Cmd) error {
 			}
 		}
 		ctl.Emit(map[string]interface{}{"a": "ScanBegin", "t": c.T})
+		if c.Hold {
+			ctl.Locked(func() { ctl.HoldScan[c.T] = true })
+		}
 		go func() {
 			rows, vals, _, err := node.ProbeHook("SELECT * FROM "+c.T, c.Mem, 6*stepTimeout, raw, func(n int) {
 				if n == c.Pause+1 {
@@ -550,6 +554,11 @@ func (r *runner) exec(c *Cmd) error {
 			r.scans = map[string]*scan{}
 		}
 		r.scans[c.T] = sc
+		if c.Hold {
+			// held right after the scan has taken its file store and memstore copy
+			_, err := ctl.WaitPark(c.T, "scan", stepTimeout, "iter.copied")
+			return err
+		}
 		select {
 		case <-paused:
 		case <-time.After(stepTimeout):
@@ -561,6 +570,9 @@ func (r *runner) exec(c *Cmd) error {
 			return r.fail("no scan of %s in progress", c.T)
 		}
 		delete(r.scans, c.T)
+		if parkedNow(ctl, c.T, "scan", "iter.copied") {
+			ctl.Release(c.T, "scan")
+		}
 		close(sc.release)
 		select {
 		case <-sc.done:
